@@ -55,8 +55,10 @@ def tlc_jobs(tier):
     for fam, dim in SHAPES:
         tag = "%s%d" % (fam, dim)
         if tier == "thorough":
-            for n in (1, 2):   # every document, every mutation
-                jobs.append(("MeshFile", "%s all n=%d" % (tag, n), mesh_cfg(fam, dim, [n], part_sets("all"), [0, 1, 2], [True, False], True)))
+            # every document; every mutation of every part set (2 cells: two partitions, indented; 1 cell: one partition, flat)
+            jobs.append(("MeshFile", tag + " docs", mesh_cfg(fam, dim, [1, 2], part_sets("all"), [0, 1, 2], [True, False], False)))
+            jobs.append(("MeshFile", tag + " muts n=2", mesh_cfg(fam, dim, [2], part_sets("all"), [2], [True], True)))
+            jobs.append(("MeshFile", tag + " muts n=1", mesh_cfg(fam, dim, [1], part_sets("all"), [1], [False], True)))
         else:
             jobs.append(("MeshFile", tag + " docs", mesh_cfg(fam, dim, [1, 2], part_sets("all"), [0, 1, 2], [True, False], False)))
             if dim == 2:
@@ -67,7 +69,7 @@ def tlc_jobs(tier):
     ini = "SPECIFICATION Spec\nCONSTANTS Variants = %s KeySets = %s SecShapes = %s Muts = TRUE\nINVARIANTS Sane Emit\nCHECK_DEADLOCK FALSE\n"
     if tier == "thorough":
         for v in range(3):
-            jobs.append(("MeshFileIni", "all trees var=%d" % v, ini % ("{%d}" % v, "SUBSET {1, 2, 3}", "0..4")))
+            jobs.append(("MeshFileIni", "all trees var=%d" % v, ini % ("{%d}" % v, "{{}, {1}, {2}, {3}, {1, 2}, {1, 3}, {2, 3}, {1, 2, 3}}", "{0, 1, 2, 3, 4}")))
     else:
         jobs.append(("MeshFileIni", "quick", ini % ("{0}", "{{}, {1, 3}, {1, 2, 3}}", "{0, 3, 4}")))
         jobs.append(("MeshFileIni", "quick2", ini % ("{1}", "{{2}}", "{1, 2}")))
